@@ -26,6 +26,7 @@ loaded from the file holds equal values.
 """
 import builtins
 import hashlib
+import math
 import os
 import shutil
 import sys
@@ -82,6 +83,46 @@ def secret_text(n):
 KEYFILE_CONTENT = {"valid": lambda i: bytes((i * 37 + j) % 251 + 1 for j in range(32)), "short": lambda i: b"12345",
                    "empty": lambda i: b"", "long": lambda i: bytes(33)}
 PLAIN_VALUES = {"int": 41, "str": "v-text", "bool": True, "float": 2.5, "ilist": [1, 2, 3], "slist": ["x", "y"], "none": None}
+PLAIN_FIELD = {"int": "int", "str": "str", "bool": "bool", "float": "float", "ilist": "ilist", "slist": "slist", "none": "str"}
+# typed field kinds of the SUCCESS clause (round-trip matrix): kind -> (field maker, value).  Byte strings chosen by
+# their base64 text: '+' and '/' present, '=' padding of length 0 / 1 / 2, empty; strings with leading / trailing /
+# inner blanks, tabs, newlines, blank-only; floats at the edges; bool next to int; None in every field type
+_B = {"empty": b"", "pad2": b"\xfb", "pad1": b"\xfb\xff", "pad0": b"\xfb\xff\xbf", "plain": b"\x00\x10\x83",
+      "mixed": bytes([0xfb, 0xef, 0xbe, 0xff, 0xff, 0x3e, 0x3f, 0x00, 0xfa]), "slashes": b"\xff\xff\xff\xff", "text": b"hello"}
+_S = {"lead": "  lead", "trail": "trail  ", "inner": "in  ner", "tabs": "\ttab\tbed\t", "nl": "line\nbreak\n", "lnl": "\nstart",
+      "blank": "   ", "onlynl": "\n", "mixedws": " \t\n mixed \n\t ", "empty": "", "cr": "a\r\nb\r", "uni": "\u00a0nb\u2003sp\u00a0"}
+_F = {"inf": float("inf"), "ninf": float("-inf"), "nan": float("nan"), "nzero": -0.0, "huge": 1e300, "tiny": 5e-324, "tenth": 0.1,
+      "whole": 3.0}
+TYPED = {}
+for _n, _v in _B.items():
+    TYPED["b64_" + _n] = ("b64", _v)
+    TYPED["hex_" + _n] = ("hex", _v)
+for _n, _v in _S.items():
+    TYPED["str_" + _n] = ("str", _v)
+for _n, _v in _F.items():
+    TYPED["float_" + _n] = ("float", _v)
+TYPED.update({
+    "b64_list": ("b64list", [_B["pad2"], _B["empty"], _B["mixed"], _B["pad1"]]),
+    "hex_list": ("hexlist", [_B["pad2"], _B["empty"], _B["mixed"]]),
+    "b64_dict": ("b64dict", {"k1": _B["pad1"], "k2": _B["slashes"], "k3": _B["empty"]}),
+    "str_list": ("slist", [_S["lead"], _S["trail"], _S["blank"], _S["nl"], _S["empty"], _S["tabs"]]),
+    "str_list_cr": ("slist", [_S["cr"], "x"]),
+    "str_dict": ("sdict", {"k1": _S["trail"], "k2": _S["mixedws"], "k3": _S["onlynl"]}),
+    "float_list": ("flist", [_F["inf"], _F["nzero"], _F["nan"], 1.5]),
+    "float_list_fin": ("flist", [_F["nzero"], _F["tiny"], 1.5, 3.0]),
+    "bool_true": ("bool", True), "bool_false": ("bool", False), "int_one": ("int", 1), "int_zero": ("int", 0),
+    "int_neg": ("int", -7), "int_big": ("int", 2 ** 40),
+    "none_int": ("int", None), "none_float": ("float", None), "none_bool": ("bool", None), "none_b64": ("b64", None),
+    "empty_slist": ("slist", []), "empty_sdict": ("sdict", {}),
+})
+for _n, (_m, _v) in TYPED.items():
+    PLAIN_VALUES[_n] = _v
+    PLAIN_FIELD[_n] = _m
+# (format, kind) the format cannot carry (measured on the unchanged tree over every kind x format; listed in reg_C19):
+# XML normalises line ends, '\r\n' and '\r' are read back as '\n'.  Everything else above round-trips exactly in all
+# five formats.  (Also measured, format-independent, not generated: a typed ListField / DictField that was never set
+# holds None and loads back as [] / {}.)
+TYPED_NOT_REPRESENTABLE = {("xml", "str_cr"), ("xml", "str_list_cr")}
 
 # ---------------------------------------------------------------------------------------------
 # recording of opens: audit hook (installed once, cannot be removed) + builtins.open wrapper
@@ -140,16 +181,17 @@ def build_schema(fields):
     for f in fields:
         kind, key = f[0], f[1]
         if kind == "plain":
-            fld = {"int": IntField, "str": StringField, "bool": BoolField, "float": FloatField,
-                   "none": StringField}.get(f[2])
-            if fld is not None:
-                setattr(s, key, fld())
-            elif f[2] == "ilist":
-                setattr(s, key, ListField(IntField()))
-            elif f[2] == "slist":
-                setattr(s, key, ListField(StringField()))
-            else:
+            from cincoconfig import BytesField
+            makers = {"int": IntField, "str": StringField, "bool": BoolField, "float": FloatField,
+                      "b64": BytesField, "hex": lambda: BytesField(encoding="hex"),
+                      "ilist": lambda: ListField(IntField()), "slist": lambda: ListField(StringField()),
+                      "flist": lambda: ListField(FloatField()), "b64list": lambda: ListField(BytesField()),
+                      "hexlist": lambda: ListField(BytesField(encoding="hex")),
+                      "sdict": lambda: DictField(StringField(), StringField()),
+                      "b64dict": lambda: DictField(StringField(), BytesField())}
+            if PLAIN_FIELD.get(f[2]) not in makers:
                 raise Broken("bad plain kind %r" % (f,))
+            setattr(s, key, makers[PLAIN_FIELD[f[2]]]())
         elif kind == "any":
             setattr(s, key, AnyField())
         elif kind == "ulist":
@@ -182,8 +224,9 @@ def populate(cfg, fields, pre, real, inject, stepno=0, first=True):
     for f in fields:
         kind, key = f[0], f[1]
         if kind == "plain":
-            if f[2] != "none":
-                setattr(cfg, key, PLAIN_VALUES[f[2]])
+            if PLAIN_VALUES[f[2]] is not None:
+                v = PLAIN_VALUES[f[2]]
+                setattr(cfg, key, list(v) if isinstance(v, list) else dict(v) if isinstance(v, dict) else v)
             if f[3]:
                 fld = schema_fields[key]
                 inject["stubs"].setdefault(id(fld), (fld, []))[1].append((cfg, f[3]))
@@ -221,7 +264,7 @@ def values_of(cfg, fields):
             out.append((key, None if v == "" else v))       # an empty secret is stored as null (secure_field.py:316)
         elif kind in ("plain",) + UNTYPED:
             v = getattr(cfg, key)
-            out.append((key, list(v) if isinstance(v, list) else v))
+            out.append((key, list(v) if isinstance(v, list) else dict(v) if isinstance(v, dict) else v))
         elif kind == "sub":
             out.append((key, values_of(getattr(cfg, key), f[3])))
         elif kind == "list":
@@ -670,7 +713,7 @@ def _oracle_save(case, step, info, obs):
 def _same_values(a, b):
     """equality that also compares types (True != 1, (1,) != [1], {1: x} != {"1": x}); NaN equals NaN"""
     if isinstance(a, float) and isinstance(b, float):
-        return a == b or (a != a and b != b)
+        return (a != a and b != b) or (a == b and math.copysign(1.0, a) == math.copysign(1.0, b))
     if type(a) is not type(b):
         return False
     if isinstance(a, (list, tuple)):
@@ -888,6 +931,8 @@ def _avoid_pending(fields, fmt):
     for f in fields:
         if f[0] in UNTYPED and (fmt, f[2]) in NOT_REPRESENTABLE:
             out.append((f[0], f[1], "nested"))
+        elif f[0] == "plain" and (fmt, f[2]) in TYPED_NOT_REPRESENTABLE:
+            out.append(("plain", f[1], "str_nl" if PLAIN_FIELD[f[2]] == "str" else "str_list", f[3]))
         elif f[0] == "sub":
             out.append(f[:3] + (_avoid_pending(f[3], fmt),))
         elif f[0] == "list":
@@ -908,6 +953,14 @@ def roundtrip_matrix(formats):
             for container in UNTYPED:
                 fields = [("plain", "a", "int", None), (container, "u", kind), ("plain", "z", "str", None)]
                 cases.append(mkcase(fmt, fields, kind="roundtrip", faults=["domain:" + kind] if fmt in OUTSIDE[kind] else []))
+        for kind in sorted(TYPED):
+            if (fmt, kind) in TYPED_NOT_REPRESENTABLE:
+                continue
+            leaf = ("plain", "t", kind, None)
+            fields = [("plain", "a", "int", None), leaf,
+                      ("sub", "sub", None, [leaf, ("sub", "deep", None, [leaf])]),
+                      ("list", "items", [leaf, ("plain", "n", "int", None)], [[leaf, ("plain", "n", "int", None)]] * 2)]
+            cases.append(mkcase(fmt, fields, kind="roundtrip"))
         for method in ("aes", "best", "xor"):
             secs = [("secret", "s%d" % n, method, n, None) for n in SECRET_LENGTHS]
             fields = list(secs) + [("sub", "sub", None, list(secs) + [("sub", "deep", None, list(secs[2:7]))]),
@@ -925,7 +978,8 @@ def random_fields(rng, depth, allow_any=True):
         used += 1
         r = rng.random()
         if r < 0.45:
-            fields.append(("plain", key, rng.choice(["int", "str", "bool", "float", "ilist", "slist", "none"]), None))
+            fields.append(("plain", key, rng.choice(["int", "str", "bool", "float", "ilist", "slist", "none"]
+                                                    + (sorted(TYPED) if rng.random() < 0.5 else [])), None))
         elif r < 0.65:
             fields.append(("secret", key, rng.choice(["xor", "aes", "best"]),
                            rng.choice([True, True, True, False] + SECRET_LENGTHS), None))
